@@ -379,3 +379,93 @@ Proof.
   lia.
 Qed.
 
+
+(* ------------------------------------------------------------------ soundness of extraction
+   Whatever tree a peer sends: every (txid, position) ExtractMatches reports is connected to the
+   returned root by a merkle branch of the tree's height, at that position. *)
+Section PmtSound.
+Variable D : Type.
+Variable deq : D -> D -> bool.
+Variable H : D -> D -> D.
+Variable zero : D.
+Variable ntx : Z.
+
+Local Notation extract := (traverse_and_extract D deq H zero ntx).
+Local Notation mk := (Build_xstate D).
+
+Lemma fold_path_snoc : forall p h i s,
+  fold_path D H h i (p ++ [s]) =
+  if Z.odd (Z.shiftr i (Z.of_nat (length p))) then H s (fold_path D H h i p) else H (fold_path D H h i p) s.
+Proof.
+  induction p as [|x p IH]; intros h i s.
+  - cbn [app fold_path length]. change (Z.of_nat 0) with 0. rewrite Z.shiftr_0_r. reflexivity.
+  - cbn [app fold_path length]. rewrite IH. rewrite Z.shiftr_shiftr by lia.
+    replace (1 + Z.of_nat (length p)) with (Z.of_nat (S (length p))) by lia. reflexivity.
+Qed.
+
+Definition linked (h : nat) (pos : Z) (x : D) (new : list (D * Z)) : Prop :=
+  forall t p, In (t, p) new ->
+    exists path, length path = h /\ fold_path D H t p path = x /\ Z.shiftr p (Z.of_nat h) = pos.
+
+Lemma extract_sound : forall h pos s x s', 0 <= pos -> extract h pos s = (x, s') ->
+  exists new, xs_matches D s' = xs_matches D s ++ new /\ linked h pos x new.
+Proof.
+  assert (Hnil : forall h pos x, linked h pos x []) by (intros h pos x t p []).
+  induction h as [|h IH]; intros pos s x s' Hpos E; cbn [traverse_and_extract] in E.
+  - destruct (xs_bits D s) as [|f bits']; [inversion E; subst; exists []; cbn; rewrite app_nil_r; auto|].
+    destruct (xs_hashes D s) as [|hash hashes']; [inversion E; subst; exists []; cbn; rewrite app_nil_r; auto|].
+    inversion E; subst. cbn [xs_matches]. destruct f.
+    + exists [(x, pos)]. split; [reflexivity|]. intros t p [Ein|[]]. inversion Ein; subst.
+      exists []. split; [reflexivity|]. split; [reflexivity|]. change (Z.of_nat 0) with 0. apply Z.shiftr_0_r.
+    + exists []. rewrite app_nil_r. auto.
+  - destruct (xs_bits D s) as [|f bits']; [inversion E; subst; exists []; cbn; rewrite app_nil_r; auto|].
+    destruct f; cbn [negb] in E.
+    + set (s0 := mk bits' (xs_hashes D s) (xs_bad D s) (xs_matches D s)) in *.
+      destruct (extract h (pos * 2) s0) as [hl s1] eqn:E1.
+      destruct (IH (pos * 2) s0 hl s1 ltac:(lia) E1) as (newl & Ml & Ll).
+      assert (Hleft : forall y, linked (S h) pos (H hl y) newl -> True) by auto.
+      destruct (pos * 2 + 1 <? calc_tree_width ntx h).
+      * destruct (extract h (pos * 2 + 1) s1) as [hr s2] eqn:E2.
+        destruct (IH (pos * 2 + 1) s1 hr s2 ltac:(lia) E2) as (newr & Mr & Lr).
+        inversion E; subst x s'.
+        exists (newl ++ newr). split.
+        { destruct (deq hr hl); cbn [xs_matches]; rewrite Mr, Ml; unfold s0; cbn [xs_matches]; rewrite app_assoc; reflexivity. }
+        intros t p Hin. apply in_app_or in Hin. destruct Hin as [Hin|Hin].
+        -- destruct (Ll t p Hin) as (path & Hlen & Hf & Hs). exists (path ++ [hr]).
+           split; [rewrite app_length; cbn; lia|]. split.
+           ++ rewrite fold_path_snoc, Hlen, Hs, Hf. replace (pos * 2) with (2 * pos) by lia. rewrite Z.odd_mul. reflexivity.
+           ++ rewrite Nat2Z.inj_succ, <- Z.add_1_r, <- Z.shiftr_shiftr by lia. rewrite Hs.
+              rewrite Z.shiftr_div_pow2 by lia. change (2 ^ 1) with 2. rewrite Z.div_mul by lia. reflexivity.
+        -- destruct (Lr t p Hin) as (path & Hlen & Hf & Hs). exists (path ++ [hl]).
+           split; [rewrite app_length; cbn; lia|]. split.
+           ++ rewrite fold_path_snoc, Hlen, Hs, Hf. replace (pos * 2 + 1) with (1 + 2 * pos) by lia.
+              rewrite Z.odd_add_mul_2. reflexivity.
+           ++ rewrite Nat2Z.inj_succ, <- Z.add_1_r, <- Z.shiftr_shiftr by lia. rewrite Hs.
+              rewrite Z.shiftr_div_pow2 by lia. change (2 ^ 1) with 2.
+              replace (pos * 2 + 1) with (1 + pos * 2) by lia. rewrite Z.div_add by lia. reflexivity.
+      * inversion E; subst x s'. exists newl. split; [rewrite Ml; reflexivity|].
+        intros t p Hin. destruct (Ll t p Hin) as (path & Hlen & Hf & Hs). exists (path ++ [hl]).
+        split; [rewrite app_length; cbn; lia|]. split.
+        -- rewrite fold_path_snoc, Hlen, Hs, Hf. replace (pos * 2) with (2 * pos) by lia. rewrite Z.odd_mul. reflexivity.
+        -- rewrite Nat2Z.inj_succ, <- Z.add_1_r, <- Z.shiftr_shiftr by lia. rewrite Hs.
+           rewrite Z.shiftr_div_pow2 by lia. change (2 ^ 1) with 2. rewrite Z.div_mul by lia. reflexivity.
+    + destruct (xs_hashes D s) as [|hash hashes']; inversion E; subst; exists []; cbn; rewrite app_nil_r; auto.
+Qed.
+
+End PmtSound.
+
+Theorem pmt_extract_sound : forall (D : Type) (deq : D -> D -> bool) (H : D -> D -> D) (zero : D) (t : pmt D) root ms,
+  pmt_extract D deq H zero t = X_ok D root ms ->
+  exists h, tree_height (pmt_ntx D t) = Some h /\
+    forall tx p, In (tx, p) ms -> exists path, length path = h /\ fold_path D H tx p path = root.
+Proof.
+  intros D deq H zero t root ms E. unfold pmt_extract in E.
+  destruct (pmt_ntx D t =? 0); [discriminate|]. destruct (pmt_ntx D t >? _); [discriminate|].
+  destruct (_ >? pmt_ntx D t); [discriminate|]. destruct (_ <? _); [discriminate|].
+  destruct (tree_height (pmt_ntx D t)) as [h|]; [|discriminate].
+  destruct (traverse_and_extract D deq H zero (pmt_ntx D t) h 0 _) as [r s] eqn:Ex.
+  destruct (xs_bad D s); [discriminate|]. destruct (negb _); [discriminate|]. destruct (negb _); [discriminate|].
+  inversion E as [[Er Em]]. exists h. split; [reflexivity|].
+  destruct (extract_sound D deq H zero (pmt_ntx D t) h 0 _ _ _ ltac:(lia) Ex) as (new & Hm & Hl). cbn [xs_matches app] in Hm.
+  intros tx p Hin. rewrite Hm in Hin. destruct (Hl tx p Hin) as (path & A & B & _). rewrite <- Er. eauto.
+Qed.
